@@ -11,6 +11,6 @@ for p in sorted(glob.glob(os.path.join(src, "patch*.diff"))):
     shutil.copy(p, os.path.join(d, "patch.diff"))
     shutil.copy(os.path.join(src, "demo%s.py" % i), os.path.join(d, "demo.py"))
     m = json.load(open(os.path.join(src, "meta%s.json" % i)))
-    m.setdefault("property", pid); m["origin"] = "fresh sub-agent given only the property text and a scratch worktree" + (" (round %d)" % {3: 4, 5: 5, 7: 6, 9: 7, 11: 8}.get(off, 0) if off else "")
+    m.setdefault("property", pid); m["origin"] = "fresh sub-agent given only the property text and a scratch worktree" + (" (round %d)" % {3: 4, 5: 5, 7: 6, 9: 7, 11: 8, 13: 10}.get(off, 0) if off else "")
     json.dump(m, open(os.path.join(d, "meta.json"), "w"), indent=1)
     print(d)
